@@ -1,1 +1,47 @@
-Require Import Base Units.
+(* C18 -- Answers in user units do not depend on the internal storage configuration. *)
+Require Import Base Units UnitsThm Contents Container ContainerThm ContainerThm2 Plate ConfigThm.
+
+(* any two configurations (any supported prefix, or none, for the moles and the volume storage unit): every script of container
+   operations takes the same accept / refuse decisions, with the same error class, and ends in related states *)
+Theorem C18_scripts_respect_configuration : forall cf cf' ops e e', Forall2 (R cf cf') e e' ->
+  snd (crun cf e ops) = snd (crun cf' e' ops) /\ Forall2 (R cf cf') (fst (crun cf e ops)) (fst (crun cf' e' ops)).
+Proof. exact crun_R. Qed.
+Print Assumptions C18_scripts_respect_configuration.
+Theorem C18_from_nothing : forall cf cf' ops,
+  snd (crun cf [] ops) = snd (crun cf' [] ops) /\ Forall2 (R cf cf') (fst (crun cf [] ops)) (fst (crun cf' [] ops)).
+Proof. intros. apply crun_R. constructor. Qed.
+Print Assumptions C18_from_nothing.
+
+(* on related states every observer returns the same answer in every user unit *)
+Theorem C18_observers_agree : forall cf cf' c c', R cf cf' c c' ->
+  (forall p, get_volume cf c p == get_volume cf' c' p) /\
+  (forall s mult nb db, get_concentration cf c s mult nb db == get_concentration cf' c' s mult nb db) /\
+  (forall s u, conv_stored cf s (get s (cont c)) u == conv_stored cf' s (get s (cont c')) u) /\
+  (forall u, total_in cf (cont c) u == total_in cf' (cont c') u) /\
+  keys (cont c) = keys (cont c').
+Proof.
+  intros cf cf' c c' HR. split; [intros; apply get_volume_R; exact HR|]. split; [intros; apply get_concentration_R; exact HR|].
+  split; [intros; apply amounts_in_user_units_R; exact HR|]. split; [intros; apply totals_in_user_units_R; exact HR|].
+  apply (Rc_keys cf cf'). apply (R_cont _ _ _ _ HR).
+Qed.
+Print Assumptions C18_observers_agree.
+
+(* the single operations *)
+Theorem C18_construct : forall cf cf' name mx init, Rres (R cf cf') (make_container cf name mx init) (make_container cf' name mx init).
+Proof. exact make_container_R. Qed.
+Print Assumptions C18_construct.
+Theorem C18_transfer : forall cf cf' src src' dst dst' q, R cf cf' src src' -> R cf cf' dst dst' ->
+  Rres (R2 cf cf') (transfer cf src dst q) (transfer cf' src' dst' q).
+Proof. exact transfer_R. Qed.
+Print Assumptions C18_transfer.
+Theorem C18_remove : forall cf cf' c c' w, R cf cf' c c' -> R cf cf' (remove cf c w) (remove cf' c' w).
+Proof. exact remove_R. Qed.
+Print Assumptions C18_remove.
+Theorem C18_fill_to : forall cf cf' c c' s q, R cf cf' c c' -> Rres (R cf cf') (fill_to cf c s q) (fill_to cf' c' s q).
+Proof. exact fill_to_R. Qed.
+Print Assumptions C18_fill_to.
+(* storage conversions are mutually inverse whatever the storage prefix (the repaired defect D25 was here) *)
+Theorem C18_storage_roundtrip : forall c v p,
+  from_storage_vol c (to_storage_vol c v p) p == v /\ from_storage_mol c (to_storage_mol c v p) p == v.
+Proof. intros. split; [apply storage_vol_inverse | apply storage_mol_inverse]. Qed.
+Print Assumptions C18_storage_roundtrip.
